@@ -42,5 +42,9 @@ pub fn alias_resolve(v: &Value) -> Value {
         None => argv.clone(),
     };
     let _ = std::fs::remove_dir_all(&dir);
-    json!({"resolved": resolved.is_some(), "passed": passed})
+    let hook_command = match &resolved {
+        Some(p) => p.command.clone(),
+        None => parsed.command.clone(),
+    };
+    json!({"resolved": resolved.is_some(), "passed": passed, "hook_command": hook_command})
 }
